@@ -517,8 +517,24 @@ impl Session {
             .rx_ctr_state
             .post_recv(rx_header.plain.ctr, self.is_encrypted(), false)
         {
+            #[cfg(feature = "verif")]
+            crate::verif::emit(crate::verif::Event::RxCtr {
+                session_id: self.id,
+                local_sess_id: self.local_sess_id,
+                ctr: rx_header.plain.ctr,
+                accepted: false,
+            });
+
             Err(ErrorCode::Duplicate)?;
         }
+
+        #[cfg(feature = "verif")]
+        crate::verif::emit(crate::verif::Event::RxCtr {
+            session_id: self.id,
+            local_sess_id: self.local_sess_id,
+            ctr: rx_header.plain.ctr,
+            accepted: true,
+        });
 
         let exch_index = self.get_exch_for_rx(&rx_header.proto);
         if let Some(exch_index) = exch_index {
